@@ -12,8 +12,21 @@ CHECKS = {
          "Race freedom by construction: every write reachable from a handler is shown to target request-local memory (interprocedural may-point-to-shared analysis with singleton types taken from the initialisers), factories return fresh objects, decode targets are request-local, globals are init-only, no goroutines/channels/shared PRNG. Holds for every interleaving because it shows the absence of shared writes rather than sampling schedules.",
          "2"),
 }
+SHORT = {"C01": "OWN-2 (forked append)", "C05": "REC (recursion table)", "C07": "TCH (type channels), LIT (literal completeness), LEN (make/fill agreement)",
+ "C09": "OWN-1 (no in-place write to borrowed state), OWN-2, SHR-1/SHR-4 (no write to shared state)", "C11": "LIT", "C15": "LEN", "C18": "TCH",
+ "C20": "PANIC-type, REC"}
+EXTRA = {
+ "C01": " Plus OWN-2 (no forked append: a loop never appends repeatedly to one base defined outside it), decided on SSA without a reference.",
+ "C05": " Plus REC (every recursion cycle on the request path is tabled with its termination argument).",
+ "C07": " Plus, without references: TCH (type channels: dynamic types produced for MethodParameters/additions vs the consumers' type assertions, per method id), LIT (literal completeness of working-state and parameter structs), LEN (make/fill agreement).",
+ "C09": " Plus, without references: OWN-1 (no in-place write to memory borrowed from the request or the working state, resolved interprocedurally), OWN-2 (no forked append), SHR-1/SHR-4 (no request-path write to memory that outlives the request).",
+ "C11": " Plus LIT (literal completeness of the heuristic's parameter struct in the listener).",
+ "C15": " Plus LEN (make/fill agreement, the SortByWeights class of defects).",
+ "C18": " Plus TCH (type channels between OnCriterionAdded and Merge of every listener).",
+ "C20": " Plus PANIC-type (every request-path panic carries an error or string), REC (recursion cycles tabled), and SHR-1 via C10.",
+}
 for _p in ["C01","C03","C04","C05","C07","C08","C09","C11","C12","C13","C14","C15","C16","C17","C18","C19","C20"]:
-    CHECKS[_p] = (E5[0], E5[1], "2")
+    CHECKS[_p] = (E5[0] + ("; plus reference-free SSA rules " + SHORT[_p] if _p in SHORT else ""), E5[1] + EXTRA.get(_p, ""), "2")
 
 NA = {"C06": "all four clauses are relations between two alternatives or two runs (dominance, equality, permutation and scaling invariance of a nested recursion); no structural necessary condition short of the algorithm's functional correctness implies them. The structural facts they rest on (symmetric qualification, retention of ex-aequo candidates, non-strict intersection guard, ratio form of the concordance) are checked under C05 and reported there, not claimed as a decision of C06."}
 
